@@ -319,7 +319,7 @@ func (e *Engine) runHarness(h *ssa.Function) *SchedInfo {
 			var ord []string
 			for _, k := range g.order {
 				c := g.rest[k]
-				if c == nil || c.g.IsFalse() {
+				if c == nil || c.g.IsFalse() || semFalse(c.g) {
 					delete(g.rest, k)
 					continue
 				}
@@ -394,7 +394,7 @@ func (e *Engine) runHarness(h *ssa.Function) *SchedInfo {
 		e.constraints = append(e.constraints, Implies(Not(anyEn), Eq(s, BV(0, 8))))
 		e.foot = foot
 		for _, cd := range cands {
-			if cd.fire.IsFalse() {
+			if cd.fire.IsFalse() || semFalse(cd.fire) {
 				continue
 			}
 			foot.gor = cd.g.idx
@@ -431,6 +431,10 @@ func (e *Engine) runHarness(h *ssa.Function) *SchedInfo {
 	}
 	si.AnyEnT = anyEn
 	si.AliveT = alive
+	if e.maxTryFails >= 0 {
+		// fairness assumption: at most this many failed Try* operations (bounded spinning)
+		e.constraints = append(e.constraints, Ule(e.tryFailCount, BV(uint64(e.maxTryFails), 8)))
+	}
 	if e.maxDefaults >= 0 {
 		// fairness assumption: schedules in which non-blocking selects fall through to default more
 		// often than the stated bound are excluded
